@@ -2110,6 +2110,20 @@ thread_local!{
             RefCell::new( SpeechRules::new(RulesFor::Braille, false) );
 }
 
+/// Forget everything that was read from the rule files so that the next use rereads them.
+/// This is used when the rules directory is (re)set: the files in it might have changed even if the path and preferences haven't.
+pub fn invalidate_rule_files() {
+    for rules in [&INTENT_RULES, &SPEECH_RULES, &OVERVIEW_RULES, &NAVIGATION_RULES, &BRAILLE_RULES] {
+        rules.with(|rules| {
+            let mut rules = rules.borrow_mut();
+            rules.rules.clear();
+            rules.unicode_short_files.borrow_mut().ft.clear();
+            rules.unicode_full.borrow_mut().clear();
+            rules.definitions_files.borrow_mut().ft.clear();
+        });
+    }
+}
+
 impl SpeechRules {
     pub fn new(name: RulesFor, translate_single_chars_only: bool) -> SpeechRules {
         let globals = if name == RulesFor::Braille {
